@@ -17,3 +17,29 @@ NOT_CARRIED = ["grep -F on the host (external program; dash-leading / newline-be
                "that any finite history of registrations and look-ups keeps the cache coherent is the invariant COH "
                "(pre/post of get_filters and add_filter); induction over the history is the meta-step",
                "`line in` containment is an uninterpreted predicate (any characters are covered; no string theory involved)"]
+
+
+def bounded(check):
+    """bounded stand-in / native witness search: real filter registry with interleaved registrations and look-ups; AllowFilter on small contents"""
+    import json, os, subprocess
+    k, l = (3, 3) if check.tier == "quick" else (4, 4)
+    here = os.path.dirname(os.path.dirname(os.path.abspath(__file__)))
+    p = subprocess.run(["/venv/bin/python", os.path.join(here, "bounded", "filters_small_scope.py"), check.repo.root, str(k), str(l)],
+                       stdout=subprocess.PIPE, stderr=subprocess.PIPE, universal_newlines=True, timeout=3000)
+    line = (p.stdout.strip().splitlines() or ["{}"])[-1]
+    try:
+        info = json.loads(line)
+    except ValueError:
+        info = {"error": (p.stderr or p.stdout)[-400:]}
+    out = dict(name="filter set in force == union registered so far (any interleaving); filtered content is the sub-sequence the property describes",
+               level="bounded", bound="every sequence of <= %d operations over 13 (add a/b on impl1, impl2, spec, parser, combiner; look up impl1, impl2, "
+                                      "spec); every content of <= %d lines over 7 line shapes x 6 allow lists" % (k, l),
+               result=info, violation=(p.returncode == 1), error=(p.returncode not in (0, 1)))
+    if p.returncode == 1:
+        os.makedirs(os.path.join(here, "replays"), exist_ok=True)
+        path = os.path.join(here, "replays", "C07-bounded.json")
+        json.dump(dict(obligation="bounded:filters-small-scope", witness=info,
+                       replay_cmd="/venv/bin/python %s %s %d %d" % (os.path.join(here, "bounded", "filters_small_scope.py"), check.repo.root, k, l)),
+                  open(path, "w"), indent=1)
+        out["replay"] = path
+    return [out]
